@@ -1,8 +1,9 @@
 from collections.abc import Sequence
 
 from xdsl.dialects import arith, linalg, memref
-from xdsl.dialects.builtin import IndexType, i64
+from xdsl.dialects.builtin import FixedBitwidthType, IndexType, MemRefType, i64
 from xdsl.ir import Operation, SSAValue
+from xdsl.utils.hints import isa
 
 from snaxc.accelerators.rocc import RoCCAccelerator
 from snaxc.dialects import accfg
@@ -125,6 +126,11 @@ class GemminiAccelerator(RoCCAccelerator):
             accfg.AwaitOp(token),
         ]
 
+    @staticmethod
+    def _element_bytes(operand: SSAValue) -> int:
+        assert isa(operand.type, MemRefType[FixedBitwidthType])
+        return operand.type.element_type.size
+
     def convert_to_acc_ops(self, op: Operation) -> Sequence[Operation]:
         if not isinstance(op, linalg.GenericOp):
             return []
@@ -138,7 +144,10 @@ class GemminiAccelerator(RoCCAccelerator):
                     [
                         metadata := memref.ExtractStridedMetaDataOp(operand),
                         pointer := memref.ExtractAlignedPointerAsIndexOp.get(operand),
-                        offset_ptr := arith.AddiOp(pointer, metadata.offset),
+                        # the offset of the metadata is in elements, the pointer in bytes
+                        el_bytes := arith.ConstantOp.from_int_and_width(self._element_bytes(operand), IndexType()),
+                        offset_bytes := arith.MuliOp(metadata.offset, el_bytes),
+                        offset_ptr := arith.AddiOp(pointer, offset_bytes),
                         offset_ptr_i64 := arith.IndexCastOp(offset_ptr, i64),
                         # Only add stride at index 0 for our experiments
                         stride_i64 := arith.IndexCastOp(metadata.strides[0], i64),
